@@ -1,0 +1,18 @@
+//go:build verif
+
+package core
+
+// This file exists only in builds made with the "verif" build tag. It exports
+// two unexported pure functions so that external runtime monitors can drive
+// them directly. It adds no behavior to the package.
+
+// VerifSynchronizable returns the synchronizable portion of an entry, exactly
+// as used by reconciliation.
+func VerifSynchronizable(e *Entry) *Entry {
+	return e.synchronizable()
+}
+
+// VerifNormalizeSymbolicLink exposes portable symbolic link normalization.
+func VerifNormalizeSymbolicLink(path, target string) (string, error) {
+	return normalizeSymbolicLinkAndEnsurePortable(path, target)
+}
